@@ -29,7 +29,7 @@ na = [dict(property_id=i, reason=NOT_APPLICABLE.get(i, "check not built yet in t
       for i in ids if i not in PROPS]
 m = dict(
     version=1,
-    setup_cmd="cd /verif/harness && cp /repo/go.sum . && GOFLAGS=-mod=mod GOPROXY=off GOSUMDB=off GOTOOLCHAIN=local go build -tags verif -o /dev/null ./cmd/drive",
+    setup_cmd="cd /verif/harness && cp /repo/go.sum . && GOFLAGS=-mod=mod GOPROXY=off GOSUMDB=off GOTOOLCHAIN=local go build -tags verif -o /dev/null ./cmd/...",
     hooks=dict(guard="verif", enable="go build -tags verif (harness module with replace github.com/go-openapi/runtime => /repo)",
                baseline_off_cmd="cd /repo && go test -json -vet=off -count=1 -timeout 25m ./...",
                source_commits=HOOK_COMMITS, add_only=True),
